@@ -280,9 +280,37 @@ class ScriptGen:
             inst[v.name] = self.g.closed(T, self.r.choice([0, 1]))
         self.record('substitution', inst, [th], False)
 
+    def do_subst_capture(self):
+        """Replacement that is open only in an argument position (get_type does not look there)
+        for a variable that occurs under binders in hypothesis and conclusion."""
+        T = self.g.rand_type(fun_ok=False)
+        schematic = self.r.random() < 0.5
+        x = SVar('x', T) if schematic else Var('x', T)
+        y, z = Var('y', T), Var('z', T)
+        g = Var('g', TFun(T, T))
+        th = self.record('assume', Forall(y, Eq(x, y)), [], False)
+        if th is None:
+            return
+        th = self.record('forall_elim', g(z), [th], False)
+        if th is None:
+            return
+        th = self.record('forall_intr', z, [th], False)
+        if th is None:
+            return
+        u = self.r.choice([Comb(Abs('w', T, Bound(0)), Bound(0)), Comb(Abs('w', T, self.g.closed(T, 0)), Bound(0)),
+                           Comb(g, Bound(0))])
+        inst = Inst()
+        if schematic:
+            inst['x'] = u
+        else:
+            inst.var_inst = {'x': u}
+        self.record('substitution', inst, [th], True)
+
     def do_substitution(self, near):
         if not near and self.r.random() < 0.25:
             return self.do_subst_shared_tyvar()
+        if near and self.r.random() < 0.2:
+            return self.do_subst_capture()
         th = self.pick(lambda t: any(h.get_svars() for h in list(t.hyps) + [t.prop])) if self.r.random() < 0.8 else self.pick()
         if th is None:
             th = self.record('assume', self.bool_term(2), [], False)
@@ -466,6 +494,30 @@ def corpus_scripts():
         p.add_item(3, 'substitution', args=Inst(x=kterm.true, w=kterm.false), prevs=[2])
         return p
     res.append(('subst_tyinst_hyps', 'C01:substitution-tyinst-hyps', subst_tyinst_hyps))
+
+    def open_replacement(schematic):
+        # get_type ignores arguments, so (%w. w) (Bound 0) passes a type check although it is
+        # open; substituted under !y / !z it is captured
+        def build():
+            B = BoolType
+            x = SVar('x', B) if schematic else Var('x', B)
+            y, z = Var('y', B), Var('z', B)
+            neg = Const('neg', TFun(B, B))
+            p = Proof()
+            p.add_item(0, 'assume', args=Forall(y, Eq(x, y)))
+            p.add_item(1, 'forall_elim', args=neg(z), prevs=[0])
+            p.add_item(2, 'forall_intr', args=z, prevs=[1])
+            u = Comb(Abs('w', B, Bound(0)), Bound(0))
+            inst = Inst()
+            if schematic:
+                inst['x'] = u
+            else:
+                inst.var_inst = {'x': u}
+            p.add_item(3, 'substitution', args=inst, prevs=[2])
+            return p
+        return build
+    res.append(('open_replacement_var', 'C01:substitution-open-replacement', open_replacement(False)))
+    res.append(('open_replacement_svar', 'C01:substitution-open-replacement', open_replacement(True)))
     return res
 
 
